@@ -12,7 +12,10 @@ ASSUMPTIONS = [
 
 def run(tier, seed):
     common.PID_ALIAS.update({"SQLM": "C01", "KVM": "C01"})
-    return common.drop_foreign(sqlm.suites_c01(tier, seed) + kvb.suites_c01(tier, seed), "C01")
+    # an EVENT frame pushed live is also sent in answer to a REQ: live matching must imply NIP-01 matching
+    from .. import relay
+    common.PID_ALIAS.update({"RELAY": "C01"})
+    return common.drop_foreign(sqlm.suites_c01(tier, seed) + kvb.suites_c01(tier, seed) + [relay.suite_live(tier, seed, pid="C01")], "C01")
 
 
 def replay(payload):
